@@ -225,19 +225,24 @@ def errStr : StructErr → String
   | .outsideFragment => "outsideFragment"
   | .outOfFuel => "outOfFuel"
 
+def fileIrKeyInj (f : FileIr) : Bool := f.fileIr.all fun p => p.2.sortKeyInjB
+
 /-- op `ser` -/
 def handleSer (payload : Json) : R Json := do
   let kind ← asStr (← field payload "kind")
   let o ← field payload "obj"
-  let doc ← match kind with
-    | "symbol" => do pure (unSymbol (← decSymbol o))
-    | "fnir" => do pure (unFnIr (← decFnIr o))
-    | "fileir" => do pure (unFileIr (← decFileIr o))
-    | "outputirs" => do pure (unOutputIrs (← decOutputIrs o))
-    | "results" => do pure (unFileResults (← decFileResults o))
-    | "cacheable" => do pure (unCacheable (← decCacheable o))
+  let (doc, inj) ← match kind with
+    | "symbol" => do pure (unSymbol (← decSymbol o), true)
+    | "fnir" => do let ir ← decFnIr o; pure (unFnIr ir, ir.sortKeyInjB)
+    | "fileir" => do let f ← decFileIr o; pure (unFileIr f, fileIrKeyInj f)
+    | "outputirs" => do
+      let x ← decOutputIrs o
+      pure (unOutputIrs x, fileIrKeyInj x.targetIr && x.importIrs.all fun p => fileIrKeyInj p.2)
+    | "results" => do pure (unFileResults (← decFileResults o), true)
+    | "cacheable" => do pure (unCacheable (← decCacheable o), true)
     | _ => .error s!"unknown kind {kind}"
-  return Json.mkObj [("doc", encDoc doc), ("compact", Json.str (toS (JVal.render doc)))]
+  return Json.mkObj [("doc", encDoc doc), ("compact", Json.str (toS (JVal.render doc))),
+                     ("sorted_dump", Json.str (toS (dumpSorted doc))), ("sort_key_injective", Json.bool inj)]
 
 def wrap {α : Type} (enc : α → Json) : SR α → Json
   | .ok a => Json.mkObj [("ok", enc a)]
